@@ -314,8 +314,9 @@ class HybridClass(metaclass=MetaHybridClass):
                 out[ff] = vv.to_dict()
             elif hasattr(vv, "_to_dict"):
                 out[ff] = vv._to_dict()
-            elif np.any(defaults.get(ff) != vv):
-                # Only include those scalar values that are not default.
+            elif ff not in defaults or np.any(defaults[ff] != vv):
+                # Only include those scalar values that are not default
+                # (a field without a default is always stored).
                 out[ff] = vv
 
         return out
